@@ -120,6 +120,11 @@ pub fn cases(prop: &str, seed: u64, tier: &str) -> Vec<String> {
                 push_mapping(&mut out, m.as_bytes());
                 let q = QuerySel { class: false, method: false, lines: false, params: true, all_lines: false, both_files: false };
                 emit_queries(&mut out, m.as_bytes(), &mut r, q);
+                // parameter frames inside typed traces (neighbouring overloads)
+                let u = universe(m.as_bytes());
+                for _ in 0..2 {
+                    out.push(format!("YA {}", crate::trace::gen_typed_ast(&mut r, &u)).trim_end().to_string());
+                }
             }
             corpus_queries(&mut out, &mut r, QuerySel { class: false, method: false, lines: false, params: true, all_lines: false, both_files: false }, b.thorough);
             e1_blocks(&mut out, &mut r, if tier == "quick" { Some(100) } else { None });
@@ -230,7 +235,7 @@ pub fn cases(prop: &str, seed: u64, tier: &str) -> Vec<String> {
                     out.push(format!("ZI max=0 {}:F", i));
                 }
             }
-            for _ in 0..b.mappings {
+            for i_map in 0..b.mappings {
                 let o = GenOpts { dom: Dom::Representable, max_classes: 3, noise: false };
                 let m = gen_mapping(&mut r, &o);
                 if !representable(m.as_bytes()) {
@@ -249,6 +254,15 @@ pub fn cases(prop: &str, seed: u64, tier: &str) -> Vec<String> {
                     out.push(format!("Z max=0 {}:F", i));
                     out.push(format!("Z max=0 {}:I", i));
                     out.push(format!("Z max=5 {}:I {}:S2 {}:F", i, i + 1, i + 7));
+                }
+                // gathering sinks (write_vectored offered): per-call room just above / inside each section end,
+                // i.e. every capacity from 17 to 200 once, and the small ones
+                for k in (1..=16).chain((17..=200).filter(|k| (k + i_map) % 3 == 0)) {
+                    out.push(format!("Z max={} vec", k));
+                }
+                for i in 0..calls.min(12) {
+                    out.push(format!("Z max=0 vec {}:S{}", i, 1 + r.below(40)));
+                    out.push(format!("Z max={} vec {}:I", 20 + r.below(100), i));
                 }
                 for _ in 0..20 {
                     let mx = r.below(9);
@@ -900,6 +914,9 @@ pub fn emit_text_queries(out: &mut Vec<String>, mapping: &[u8], r: &mut Rng, n_t
     for _ in 0..n_typed {
         let t = crate::trace::gen_canonical_trace(r, &u);
         out.push(format!("Y {}", hex(t.as_bytes())));
+        // the same API on traces built through the constructors (frames by parameters included)
+        let a = crate::trace::gen_typed_ast(r, &u);
+        out.push(format!("YA {}", a).trim_end().to_string());
     }
     for _ in 0..n_sig {
         let s = crate::trace::gen_signature(r, &u);
